@@ -2,7 +2,7 @@
 from .. import metacheck, metagen
 
 PID = 'C10'
-OPT = {'spell_attr': True, 'spell_class': True, 'serialize': True}
+OPT = {'spell_attr': True, 'spell_class': True, 'serialize': True, 'spell_ident': True}
 VALS = {'STRING': {'s:a', 's:b'}, 'UNIQUE_ID': {'u:0', 'u:9'}, 'INTEGER': {'i:7'}, 'BOOLEAN': {'b:1'}}
 
 
@@ -45,7 +45,7 @@ def random_runs(schema, rnd, tier):
 
 
 def plans():
-    obs = metagen.battery(['sel'], per_step=2, dup_eq=True)
+    obs = metagen.battery(['sel', 'sel', 'sel', 'chk_id'], per_step=2, dup_eq=True)
     return [
         {'name': 'spelling', 'schema': 'spelling', 'spec': 'SpecVal', 'alpha': {'new', 'set', 'del', 'link', 'delete'},
          'vals': VALS, 'bound': {'quick': {'Lk': 1, 'Kx': 1}, 'thorough': {'Lk': 2, 'Kx': 1}},
